@@ -105,7 +105,13 @@ impl Planner {
             } else {
                 let max = *p.pick(&[3usize, 17, 600, 9000]);
                 let n = p.range(2, 16);
-                (0..n).map(|_| p.range(1, max)).collect()
+                let mut v: Vec<usize> = (0..n).map(|_| p.range(1, max)).collect();
+                // now and then a zero-length request (read(&mut []): "no octets wanted", not the end)
+                if p.chance(1, 4) {
+                    let at = p.below(v.len() + 1);
+                    v.insert(at, 0);
+                }
+                v
             }
         };
         match self.below(if text_ok { 8 } else { 7 }) {
